@@ -42,6 +42,8 @@ def run(res):
         if found <= 5:
             res.violation("scope resolution differs from the Coq model (%s)" % m.split("|")[0],
                           {"template_dump": c[:4000], "impl": i, "model": m}, no_input=True)
+    found_a = found
+    found = 0
     p = harness_run(["scopeval", res.tier, res.seed])
     jobs_in = [json.loads(l) for l in p.stdout.decode("utf8").split("\n") if l]
     jobs = []
@@ -86,6 +88,10 @@ def run(res):
                         {"src": j["src"], "data": d, "reference_js": j["ref"], "rendered": got, "expected": want})
     if not ok:
         res.violation(what, {"obligation": "Properties/C05.v"}, no_input=(found == 0))
+    if found > 0:
+        # a concrete failing input exists: the model-correspondence alarms are not "no input found"
+        for v in res.violations:
+            v["no_input"] = False
     res.cov["evaluations"] = r["n"] + n_eval
     res.cov["distinct_nontrivial"] = nontrivial
     res.cov["rule"] = ("analysis: generated templates re-analysed by the model; behaviour: 1-3 nested wx:for (default / renamed / "
